@@ -16,6 +16,7 @@ def run(ck):
     res = funcs.kernel_typing(ck, "C09.R1", only=("truediv", "floordiv", "mod"))
     funcs.division_operators(ck, "C09.R2", res)
     funcs.single_quantization(ck, "C09.R2", res)
+    funcs.repr_operator_table(ck, "C09.R2")
     funcs.division_room(ck, "C09.R3")
     nf = {k: v[2] for k, v in funcs.GROWTH.items()}
     funcs.alignment_exponents_nonneg(ck, "C09.R4", res, ("truediv", "mod"), nf)
